@@ -462,15 +462,23 @@ def run(tier, seed, drv):
             eof_now = k % 2 == 1
             log = []
             adapter = build_adapter(cmds, log, None)
-            case = {"set": si, "chunks": [list(c) for c in chunks], "intr_latency": lat, "eof_at_once": eof_now}
+            # every third connection is greeted: what the adapter's on_connect yields is written like any other reply
+            # (once, in order, before the replies to the chunks; None = nothing, b"" = an empty message)
+            greet = [b"HI", None, b"", b"ready"] if k % 3 == 0 else []
+            if greet:
+                async def on_connect(greet=greet):
+                    for g in greet:
+                        yield g
+                adapter.on_connect = on_connect
+            case = {"set": si, "chunks": [list(c) for c in chunks], "intr_latency": lat, "eof_at_once": eof_now, "greet": [None if g is None else list(g) for g in greet]}
             res.case((si, "seq", tuple(chunks), lat), nontrivial=True)
-            res.count("chunk-sequences")
+            res.count("chunk-sequences" + ("-greeted" if greet else ""))
             try:
                 loop.run_until_complete(run_real_seq(adapter, chunks, log, lat, eof_at_once=eof_now))
             except Exception as e:
                 res.violate(V("handler-raised", f"handling chunks {chunks!r} raised {type(e).__name__}:{e}", site=type(e).__name__), case)
                 continue
-            exp = [e for c in chunks for e in expected_events(cmds, c, None)]
+            exp = [("write", list(g)) for g in greet if g is not None] + [e for c in chunks for e in expected_events(cmds, c, None)]
             real = [tuple(e) if e[0] != "write" else ("write", e[1]) for e in log]
             w_real, w_exp = [e for e in real if e[0] == "write"], [tuple(e) for e in exp if e[0] == "write"]
             x_real, x_exp = [list(e) for e in real if e[0] != "write"], [list(e) for e in exp if e[0] != "write"]
@@ -595,12 +603,19 @@ def replay(payload, drv):
         log = []
         loop = asyncio.new_event_loop()
         err = None
+        greet = [None if g is None else bytes(g) for g in c.get("greet", [])]
+        ad = build_adapter(cmds, log, None)
+        if greet:
+            async def on_connect(greet=greet):
+                for g in greet:
+                    yield g
+            ad.on_connect = on_connect
         try:
-            loop.run_until_complete(run_real_seq(build_adapter(cmds, log, None), chunks, log, c["intr_latency"], eof_at_once=c.get("eof_at_once", False)))
+            loop.run_until_complete(run_real_seq(ad, chunks, log, c["intr_latency"], eof_at_once=c.get("eof_at_once", False)))
         except Exception as e:
             err = f"{type(e).__name__}:{e}"
         loop.close()
-        exp = [list(e) for ch in chunks for e in expected_events(cmds, ch, None)]
+        exp = [["write", list(g)] for g in greet if g is not None] + [list(e) for ch in chunks for e in expected_events(cmds, ch, None)]
         real = [list(e) for e in log]
         vs = []
         if err:
